@@ -390,9 +390,20 @@ def verify(contract, tier, check, budget=None, prefix=None):
                     ex.oblige(s, f"raises.{oc[1]}", contract.raises[oc[1]](a), label="exception only when the contract says so")
                 else:
                     ex.oblige(s, "safe.no_raise", z3.BoolVal(False), label=f"unlisted {oc[1]} " + "/".join(s.trace[-3:]))
-        if n_return:
-            # canary: "False" at the returns must be refutable, else the assumptions are contradictory
-            pass
+        # vacuity guard (cover check): the assumptions collected on the explored exits must be satisfiable, otherwise
+        # every obligation on that path "verifies" for the wrong reason.  `unknown` is tolerated (sequence VCs), `unsat` is not.
+        covered = 0
+        for s_, oc_ in outs[:6]:
+            cv = z3.Solver()
+            cv.set("timeout", 1500)
+            cv.add(*s_.pc)
+            cv.add(*s_.facts)
+            r_ = cv.check()
+            if r_ == z3.unsat:
+                check.engine_error(f"{contract.key}[{shape.name}]: contradictory assumptions on the path {'/'.join(s_.trace[-4:])} (vacuous proof)")
+            elif r_ == z3.sat:
+                covered += 1
+        rep.covered = getattr(rep, "covered", 0) + covered
         for ob in ex.obligations:
             oid = f"{prop}.{contract.qualname}[{shape.name}].{ob.name}"
             g = ob.goal
@@ -430,7 +441,8 @@ def verify(contract, tier, check, budget=None, prefix=None):
             check.add_obligation(Obligation(oid, contract.key, ob.kind, res["solver"], "undecided", round(res["seconds"], 3), res["detail"]))
     rep.seconds = time.time() - t_start
     check.functions[contract.key] = {"obligations": rep.obligations, "discharged": rep.discharged, "paths": rep.paths,
-                                     "status": rep.status, "shapes": len(contract.shapes)}
+                                     "status": rep.status, "shapes": len(contract.shapes),
+                                     "paths_with_satisfiable_assumptions": getattr(rep, "covered", 0)}
     return rep
 
 
